@@ -275,7 +275,7 @@ theorem jl_coef_cancel (θ : ℝ) (hθ : 0 < θ) (hS : Real.sin (θ / 2) ≠ 0) 
 
 theorem sin_arctan_abs (x : ℝ) : x * Real.sin |x| = |x| * Real.sin x := by
   rcases abs_choice x with h | h
-  · rw [h]; ring
+  · rw [h]
   · rw [h, Real.sin_neg]; ring
 
 /-- **`so3Exp (SO3Log q) = ±q`** for a unit quaternion in the code's generic regime (`eps < |v|`, `eps < |w|`,
@@ -297,6 +297,7 @@ theorem so3Exp_SO3Log (eps : ℝ) (q : Quat ℝ) (h0 : 0 ≤ eps) (hq : q.normSq
   have hlog : SO3Log eps q = q.vec.smul (2 * x / q.vec.norm) := by
     unfold SO3Log so3LogFactor
     simp only [lt_real, hv, decide_true, if_true, sabs_real, hw, k_real, atan_real, Nat.cast_ofNat]
+    rw [← hx]
   have hnorm : (q.vec.smul (2 * x / q.vec.norm)).norm = 2 * |x| := by
     unfold Vec3.norm
     simp only [sqrt_real]
@@ -350,5 +351,46 @@ theorem so3Exp_SO3Log (eps : ℝ) (q : Quat ℝ) (h0 : 0 ≤ eps) (hq : q.normSq
         _ = q.y := by rw [key]; ring
     · calc Real.sin |x| / (2 * |x|) * (2 * x / q.vec.norm * q.z) = (2 * x / q.vec.norm * (Real.sin |x| / (2 * |x|))) * q.z := by ring
         _ = q.z := by rw [key]; ring
+
+theorem norm_smul_abs (c : ℝ) (v : Vec3 ℝ) : (v.smul c).norm = |c| * v.norm := by
+  unfold Vec3.norm
+  simp only [sqrt_real]
+  rw [Vec3.normSq_smul, Real.sqrt_mul (mul_self_nonneg c), Real.sqrt_mul_self_eq_abs]
+
+/-- `‖SO3Log q‖ = 2|arctan(|v|/w)|` in the generic regime -/
+theorem SO3Log_norm_generic' (eps : ℝ) (q : Quat ℝ) (h0 : 0 ≤ eps) (hv : eps < q.vec.norm) (hw : eps < |q.w|) :
+    (SO3Log eps q).norm = 2 * |Real.arctan (q.vec.norm / q.w)| := by
+  have hvn : 0 < q.vec.norm := lt_of_le_of_lt h0 hv
+  unfold SO3Log so3LogFactor
+  simp only [lt_real, hv, decide_true, if_true, sabs_real, hw, k_real, atan_real, Nat.cast_ofNat]
+  rw [norm_smul_abs, abs_div, abs_mul, abs_of_pos hvn, abs_of_pos (show (0 : ℝ) < 2 by norm_num)]
+  field_simp
+
+/-- **`se3Exp (SE3Log D) ≅ D`** (same rigid transformation) for a valid pose whose rotation is in the code's
+generic regime: `eps < |v|`, `eps < |w|`, angle `2|arctan(|v|/w)| > eps`. -/
+theorem se3Exp_SE3Log (eps : ℝ) (D : SE3 ℝ) (h0 : 0 ≤ eps) (hD : SE3.Valid D) (hv : eps < D.q.vec.norm)
+    (hw : eps < |D.q.w|) (hθ : eps < 2 * |Real.arctan (D.q.vec.norm / D.q.w)|) :
+    SE3Equiv (se3Exp eps (SE3Log eps D)) D := by
+  have hnorm := SO3Log_norm_generic' eps D.q h0 hv hw
+  have hθ' : eps < (SO3Log eps D.q).norm := by rw [hnorm]; exact hθ
+  have hpos : 0 < (SO3Log eps D.q).norm := lt_of_le_of_lt h0 hθ'
+  unfold se3Exp SE3Log
+  refine ⟨?_, so3Exp_SO3Log eps D.q h0 hD hv hw hθ⟩
+  simp only []
+  unfold so3Jl so3JlInv so3JlCoef so3JlInvCoef
+  simp only [lt_real, hθ', decide_true, if_true, sin_real, cos_real, k_real, q_real, Nat.cast_one, Nat.cast_ofNat]
+  rw [polyK_mulVec_comp, ← Vec3.norm_sq]
+  set θ := (SO3Log eps D.q).norm with hθdef
+  have hx1 := Real.arctan_lt_pi_div_two (D.q.vec.norm / D.q.w)
+  have hx2 := Real.neg_pi_div_two_lt_arctan (D.q.vec.norm / D.q.w)
+  have hhalf : θ / 2 < Real.pi := by
+    rw [hnorm]
+    have : |Real.arctan (D.q.vec.norm / D.q.w)| < Real.pi / 2 := abs_lt.mpr ⟨by linarith, by linarith⟩
+    have := Real.pi_pos
+    linarith
+  have hS : Real.sin (θ / 2) ≠ 0 := ne_of_gt (Real.sin_pos_of_pos_of_lt_pi (by linarith) hhalf)
+  obtain ⟨hB, hC⟩ := jl_coef_cancel θ hpos hS
+  have e12 : (1 : ℝ) / 2 * θ = θ / 2 := by ring
+  rw [e12, hB, hC, polyK_id_mulVec]
 
 end PP.Spline
